@@ -205,6 +205,17 @@ def check_case(rep, drv, case, rng=None):
                 rep.count('reencode-skipped-E3-region')    # the DER encoder itself drops the empty OPTIONAL member (finding E3, C02)
             elif again != der:
                 rep.fail('schemaless-reencode-differs', 're-encoding %s, original %s' % (again.hex()[:120], der.hex()[:120]), replay)
+            else:
+                # ... and it is a value object in its own right: a copy of it (clone with its values) writes the same octets
+                try:
+                    copy = obj.clone(cloneValueFlag=True) if hasattr(obj, 'componentType') else obj.clone()
+                    again2 = der_encoder.encode(copy)
+                except Exception as e:  # noqa
+                    again2 = ('err ' + codec.classify(e)).encode()
+                rep.count('reencode-of-copy')
+                if again2 != der:
+                    rep.fail('schemaless-copy-reencode-differs', 'a value-copy of the guessed object re-encodes as %s, the object itself as %s'
+                             % (again2.hex()[:120] if not again2.startswith(b'err') else again2.decode(), der.hex()[:120]), replay)
         ml = model_leaves(drv, cdc, data)
         rep.corr_checked += 1
         if ml is None:
